@@ -98,6 +98,20 @@ func writeReplay(ld *Loaded, id string, o *Obligation, work string) replayResult
 		rf.Desc = o.Detail
 		rf.Verdict = "static"
 		rf.Note = "decided by a scan of the SSA, no solver involved"
+		for _, rb := range replayBuilders {
+			if !rb.re.MatchString(o.Name) {
+				continue
+			}
+			if pkg, src, ok := rb.fn(ld, o, map[string]string{}, ""); ok {
+				rf.Pkg, rf.TestSource = pkg, src
+				out, confirmed := runReplayTest(pkg, src, work)
+				rf.TestOutput, rf.Confirmed = out, confirmed
+				if !confirmed {
+					rf.Note += "; the registered probe did not reproduce a failure on this tree (the obligation still failed)"
+				}
+			}
+			break
+		}
 	}
 	if q := o.Failed; q != nil {
 		rf.Desc, rf.Solver, rf.Verdict, rf.RawModel = q.Desc, q.Solver, q.Verdict, strings.TrimSpace(q.Model)
